@@ -84,3 +84,22 @@ Theorem C04_ternary_engine_eq_compositional : forall A B C fa fb fc fo op,
   fused_ternary_flip_op_faithful A B C fa fb fc fo op = fused_ternary_flip_op A B C fa fb fc fo op.
 Proof. exact ternary_faithful_eq. Qed.
 Print Assumptions C04_ternary_engine_eq_compositional.
+
+(* the efficient ternary engine (Model/Apply3Fast.v) run by the driver on operands above 300 nodes: equal to the
+   reference engine on ALL inputs, hence the same flip semantics *)
+From BddVerif Require Import Model.Apply3Fast Proofs.Apply3Fast.
+
+Theorem C04_ternary_fast_refines : forall A B C fa fb fc fo op,
+  fused_ternary_flip_op_faithful_fast A B C fa fb fc fo op = fused_ternary_flip_op_faithful A B C fa fb fc fo op.
+Proof. exact fused_ternary_flip_op_faithful_fast_eq. Qed.
+Print Assumptions C04_ternary_fast_refines.
+
+Theorem C04_ternary_fast_flip_semantics : forall A B C fa fb fc fo op,
+  wf A -> wf B -> wf C -> nvars A = nvars B -> nvars B = nvars C ->
+  (flip_ok (nvars A) fa && flip_ok (nvars A) fb && flip_ok (nvars A) fc && flip_ok (nvars A) fo = true) ->
+  total3 op -> consistent3 op ->
+  exists r, fused_ternary_flip_op_faithful_fast A B C fa fb fc fo op = Ok r /\ Canonical r /\ nvars r = nvars A /\
+    forall v, eval r v = conn3 op (eval A (oflip fa (oflip fo v))) (eval B (oflip fb (oflip fo v)))
+                                  (eval C (oflip fc (oflip fo v))).
+Proof. exact fused_ternary_flip_op_faithful_fast_correct. Qed.
+Print Assumptions C04_ternary_fast_flip_semantics.
